@@ -8,7 +8,7 @@ From SCMO Require Import Lib.Val Lib.StatusLang Gen.GenStatus.
 
 (* a run: loop counts, branch outcomes and fault oracle are parameters *)
 Definition start (w : world) : cfg := mkC 0 w [].
-Definition run (p : prog) (cnt : nat -> nat) (ch : nat -> bool) (f : nat -> fault) (w : world) : res * cfg :=
+Definition run_prog (p : prog) (cnt : nat -> nat) (ch : nat -> bool) (f : nat -> fault) (w : world) : res * cfg :=
   exec cnt ch f p (start w).
 
 (* the crash points of the property statement: the k-th executed step raises (an Exception)
@@ -41,7 +41,7 @@ Definition run_val (p : prog) (v : Val) : Val :=
   let cnt := fun i => Z.to_nat (nth i cnts 0%Z) in
   let ch := fun i => negb (Z.eqb (nth i chs 0%Z) 0) in
   let f := fun i => dec_fault (lookup faults (Z.of_nat i)) in
-  let '(r, s) := run p cnt ch f w in
+  let '(r, s) := run_prog p cnt ch f w in
   VL [VZ (enc_res r); enc_world (wd s); VL (map (fun l => VZ (Z.of_nat l)) (rev (tr s)))].
 
 Definition run_C20 (mode : Z) (v : Val) : Val :=
